@@ -195,3 +195,48 @@ pub fn run(seed: u64, tier: &str, out: &mut Out) {
         out.emit(&case, &format!(" ORACLE {verdict}"));
     }
 }
+
+/// a `TermLike` that does not say how tall it is: the trait's default height (20 rows) is what limits the frame
+#[derive(Debug, Clone)]
+struct NoHeight(Recorder);
+impl TermLike for NoHeight {
+    fn width(&self) -> u16 { self.0.width() }
+    fn move_cursor_up(&self, n: usize) -> std::io::Result<()> { self.0.move_cursor_up(n) }
+    fn move_cursor_down(&self, n: usize) -> std::io::Result<()> { self.0.move_cursor_down(n) }
+    fn move_cursor_right(&self, n: usize) -> std::io::Result<()> { self.0.move_cursor_right(n) }
+    fn move_cursor_left(&self, n: usize) -> std::io::Result<()> { self.0.move_cursor_left(n) }
+    fn write_line(&self, s: &str) -> std::io::Result<()> { self.0.write_line(s) }
+    fn write_str(&self, s: &str) -> std::io::Result<()> { self.0.write_str(s) }
+    fn clear_line(&self) -> std::io::Result<()> { self.0.clear_line() }
+    fn flush(&self) -> std::io::Result<()> { self.0.flush() }
+}
+
+/// C19H: more bars than the default height of a `TermLike` (20 rows): only the leading bars that fit are painted, every redraw
+/// erases them completely, and bars that were left out appear as soon as there is room
+pub fn run_default_height(seed: u64, tier: &str, out: &mut Out) {
+    use indicatif::MultiProgress;
+    let mut rng = Rng::new(seed ^ 0x19aa);
+    let n = if tier == "thorough" { 2_000 } else { 60 };
+    for _ in 0..n {
+        let nb = rng.range(18, 30) as usize;
+        let rec = Recorder::new(40, 30, true);
+        let mp = MultiProgress::with_draw_target(ProgressDrawTarget::term_like(Box::new(NoHeight(rec.clone()))));
+        let bars: Vec<ProgressBar> = (0..nb).map(|k| { let pb = mp.add(ProgressBar::new(9)); pb.set_style(ProgressStyle::with_template("{prefix} {pos}/{len}").unwrap()); pb.set_prefix(format!("b{k}")); pb }).collect();
+        let mut verdict = String::from("ok");
+        for round in 0..3u64 {
+            for b in &bars { b.set_position(round); }
+            let rows = rec.rows();
+            let want: Vec<String> = (0..nb.min(20)).map(|k| format!("b{k} {round}/9")).collect();
+            if rows != want && verdict == "ok" { verdict = format!("FAIL default-height round {round}: {} rows on screen, first differing row {:?}", rows.len(), rows.iter().zip(want.iter()).find(|(a, b)| a != b)); }
+        }
+        // finish and drop the leading bars: the ones that did not fit take their place
+        let gone = rng.range(1, 6) as usize;
+        let mut bars = bars;
+        for b in bars.drain(..gone) { b.finish_and_clear(); drop(b); }
+        for b in &bars { b.tick(); }
+        let rows = rec.rows();
+        let want: Vec<String> = (gone..nb.min(gone + 20)).map(|k| format!("b{k} 2/9")).collect();
+        if rows != want && verdict == "ok" { verdict = format!("FAIL omitted-bars-do-not-appear after {gone} of {nb} bars were cleared: {} rows, expected {}", rows.len(), want.len()); }
+        out.emit(&format!("NOMODEL DEFAULTHEIGHT bars={nb} gone={gone}"), &format!(" ORACLE {verdict}"));
+    }
+}
